@@ -4,6 +4,7 @@
 mod common;
 mod sched;
 mod seq;
+mod serve;
 mod stress;
 
 fn main() {
@@ -16,6 +17,7 @@ fn main() {
         "seq" => seq::main(&args[2..]),
         "sched" => sched::main(&args[2..]),
         "stress" => stress::main(&args[2..]),
+        "serve" => serve::main(&args[2..]),
         other => {
             eprintln!("unknown subcommand {other}");
             2
